@@ -256,6 +256,12 @@ pub fn check(sc: &Scenario, ex: &mut Exec) -> (Verdict, Option<String>) {
                 witness: json!({"cu": cu, "cap_in_query": other}),
             }),
         }
+        if t.tau == f64::INFINITY {
+            // tau overflowed (delta share / Cu below f64 resolution): nothing is ever released, the
+            // key release spends nothing
+            thr_used.push((0.0, 0.0));
+            continue;
+        }
         let z = (t.tau - 1.0) / sigma;
         let d_exact = budget::delta_of_z(z, cu);
         // the compiler computes tau from (1 - delta)^(1/Cu) in f64: an absolute rounding of
